@@ -85,6 +85,9 @@ def to_json(o):
     if isinstance(o, bytes):
         return {"t": "bytes", **ref_of(type(o)), "repr": repr(o)}
     if isinstance(o, QName):
+        if any(0xD800 <= ord(c) <= 0xDFFF for c in o.text):
+            # JSON files cannot hold a lone surrogate: give the code points (never sent to the Lean driver)
+            return {"t": "qname", "cps": [ord(c) for c in o.text]}
         return {"t": "qname", "text": o.text}
     if type(o) is list:
         return {"t": "list", "items": [to_json(x) for x in o]}
@@ -261,7 +264,7 @@ def build_val(j, b: Built):
             return raw
         return _walk(j["module"], j["path"])(raw)
     if t == "qname":
-        return QName(j["text"])
+        return QName("".join(chr(c) for c in j["cps"]) if "cps" in j else j["text"])
     if t == "opaque":
         mod = importlib.import_module(j["module"])
         return eval(".".join(j["callee"]) + j["args"], dict(vars(mod)))  # noqa: S307
@@ -364,7 +367,7 @@ def compare_code(mo, io, a):
     STATS["declined"] += mo["ok"]["outcome"] == "unmodelled"
     if not h.get("wf"):
         return False
-    if all(h.get(k) for k in ("wf", "dom", "setfree", "imports")):
+    if all(h.get(k) for k in ("wf", "dom", "imports")):
         STATS["claimed"] += 1
         STATS["claimed_equal"] += io["ok"]["outcome"] == "equal"
         if io["ok"]["outcome"] != "equal" or mo["ok"]["outcome"] != "equal":
@@ -521,7 +524,7 @@ def hash_key(j):
     return json.dumps(j, sort_keys=True)
 
 
-SET_ELEMS = [0, 1, 2, 3, 5, -1, None, 1.5, (), (1, 2), (3,)]  # hashes that do not depend on PYTHONHASHSEED
+SET_ELEMS = [0, 1, 2, 3, 5, -1, None, 1.5, (), (1, 2), (3,), frozenset(), frozenset({7}), (frozenset({4}),)]  # hashes that do not depend on PYTHONHASHSEED
 
 
 def stable_set(items, frozen):
@@ -886,7 +889,7 @@ def features(a):
         elif t == "set":
             fs.add("set+" if j["items"] else "set0")
         elif t == "qname":
-            fs.add("qname-esc" if any(c in ESCAPED_QNAME_CHARS or ord(c) < 32 for c in j["text"]) else "qname")
+            fs.add("qname-esc" if any(c in ESCAPED_QNAME_CHARS or ord(c) < 32 for c in j.get("text", "")) else "qname")
         elif t == "model":
             fs.add("nested-model" if len(j["path"]) > 1 else "model")
         elif t == "float":
@@ -950,6 +953,61 @@ def impl_qname_literal(a):
     return ok({"text": text, "back": back})
 
 
+def gen_qnamecp(rng, tier):
+    """QName texts as code point lists: every surrogate boundary, pairs in both
+    orders, astral characters, escapes next to surrogates, then random"""
+    hand = [[0xD800], [0xDBFF], [0xDC00], [0xDFFF], [0xD7FF], [0xE000], [0xD83D, 0xDE00], [0xDE00, 0xD83D], [0x1F600],
+            [97, 0xD800, 98], [0xD800, 34], [92, 0xDFFF], [0xD800, 10, 0xDC00], [0x10FFFF], [0], [0xD800, 0x1F600, 0xDFFF],
+            [92, 117, 100, 56, 48, 48]]  # the last one: the *characters* backslash-u-d-8-0-0
+    for h in hand:
+        yield {"cps": h}
+    pool = [0xD800, 0xDABC, 0xDC00, 0xDFFF, 0x1F600, 0x10FFFF, 0xE9, 0x20AC, 0x2028, 34, 92, 10, 13, 9, 0, 8, 12, 0x1F, 0x7F, 97, 117, 48]
+    for _ in range(1200 if tier == "quick" else 20000):
+        yield {"cps": [rng.choice(pool) if rng.random() < 0.8 else rng.randrange(0x110000) for _ in range(rng.randint(0, 6))]}
+
+
+def impl_qnamecp(a):
+    from xsdata.utils.objects import literal_value
+
+    text = "".join(chr(c) for c in a["cps"])
+    lit = literal_value(QName(text))
+    pre, post = 'QName("', '")'
+    if not (lit.startswith(pre) and lit.endswith(post)):
+        return err("shape")
+    body = lit[len(pre):len(lit) - len(post)]
+    if any(0xD800 <= ord(c) <= 0xDFFF for c in body):
+        # a raw surrogate in the source text: nothing the driver protocol (or a source file) can carry
+        return ok({"body": "RAW-SURROGATE", "back": None})
+    try:
+        with warnings.catch_warnings():
+            warnings.simplefilter("ignore")
+            back = [ord(c) for c in eval(compile(lit, "<c18cp>", "eval"), {"QName": QName}).text]  # noqa: S307
+    except Exception:  # noqa: BLE001
+        back = None
+    return ok({"body": body, "back": back})
+
+
+def gen_dqcp(rng, tier):
+    for t in ["\\ud800", "\\udfff", "\\ud83d\\ude00", "a\\udc00b", "\\ud7ff\\ue000", "\\u0041", "\\ud80", "\\udg00", "\\uD800"]:
+        yield {"s": t}
+    alpha = 'ab\\\\"ntud8cf0 €'
+    for _ in range(1200 if tier == "quick" else 20000):
+        yield {"s": "".join(rng.choice(alpha) for _ in range(rng.randint(0, 8)))}
+
+
+def impl_dqcp(a):
+    s = a["s"]
+    try:
+        with warnings.catch_warnings():
+            warnings.simplefilter("ignore")
+            v = eval(compile('("' + s + '")', "<c18dqcp>", "eval"))  # noqa: S307
+    except (SyntaxError, ValueError):
+        return err("unmodelled")
+    if not isinstance(v, str):
+        return err("unmodelled")
+    return ok([ord(c) for c in v])
+
+
 def gen_pyeq(rng, tier):
     w = []
     vals = [x for grp in EQ_VARIANTS for x in grp] + [J(None), J(float("nan")), J(Decimal("NaN")), J(float("inf")), J(Decimal("Infinity")),
@@ -970,6 +1028,10 @@ CORRS = [
     Corr("c18.pyeq", gen_pyeq, impl_pyeq, describe="Python == on scalar/collection values vs pyEq"),
     Corr("c18.json", gen_json, impl_json, nontrivial=lambda a, o: len(a["s"]) > 0,
          describe="json.dumps(s, ensure_ascii=False) vs jsonDumps (every code point below U+0250, then random)"),
+    Corr("c18.qnamecp", gen_qnamecp, impl_qnamecp, nontrivial=lambda a, o: any(0xD800 <= c <= 0xDFFF for c in a["cps"]),
+         describe="literal_value(QName(text)) for texts given by code points, lone surrogates included: text between the quotes and what CPython reads back vs qnameLitBody / decodeCp"),
+    Corr("c18.dqcp", gen_dqcp, impl_dqcp, compare=compare_dq, nontrivial=lambda a, o: "\\u" in a["s"],
+         describe='CPython decoding of a "…" body to code points (surrogate escapes included) vs decodeCp (model may decline)'),
     Corr("c18.qnamelit", gen_json, impl_qname_literal, nontrivial=lambda a, o: len(a["s"]) > 0,
          describe="literal_value(QName(s)) text and its evaluation by CPython vs the model's text and decodeDq"),
 ]
@@ -1085,73 +1147,26 @@ def rename_clashes(a):
     return walk(a)
 
 
-def _has_surrogate(s):
-    return any(0xD800 <= ord(c) <= 0xDFFF for c in s)
-
-
-def repair_value(a):
-    """(ids of the value-level findings whose region the input lies in,
-    the input with exactly those triggers removed): a non-empty set becomes a
-    list, a lone surrogate in a QName text becomes `_`"""
-    ids = []
-    fresh = [0]
-
-    def triggers(j):
-        return any(
-            (x["t"] == "set" and x["items"]) or (x["t"] == "qname" and _has_surrogate(x["text"])) for x in walk_vals(j)
-        )
-
-    def fix(j):
-        t = j["t"]
-        if t == "qname" and _has_surrogate(j["text"]):
-            ids.append("C18-qname-lone-surrogate")
-            return J(QName("".join("_" if 0xD800 <= ord(c) <= 0xDFFF else c for c in j["text"])))
-        if t == "set" and j["items"]:
-            ids.append("C18-set-as-list")
-            return {"t": "list", "items": [fix(x) for x in j["items"]]}
-        if t in ("list", "tuple", "set"):
-            return {**j, "items": [fix(x) for x in j["items"]]}
-        if t == "dict":
-            items = []
-            for k, v in j["items"]:
-                if triggers(k):
-                    fix(k)  # records the finding ids
-                    fresh[0] += 1
-                    k = J(f"__repaired_key_{fresh[0]}")
-                items.append([k, fix(v)])
-            return {**j, "items": items}
-        if t == "model":
-            return {**j, "attrs": [[n, fix(v)] for n, v in j["attrs"]]}
-        return j
-
-    v = fix(a["val"])
-    return ids, {**a, "val": v}
-
-
 def covered(a, msg):
-    """A failing input belongs to a known finding when it lies in that
-    finding's region (a predicate on the input / on the emitted imports) *and*
-    the property holds once exactly the triggers of the known findings are
-    removed - so nothing else is wrong with it."""
+    """A failing input belongs to the one remaining known finding when the
+    *emitted* import lines bind one name twice (a predicate on the
+    implementation's output) *and* the property holds once the clashing classes
+    are renamed - so nothing else is wrong with it."""
     try:
-        ids, fixed = repair_value(a)
-        if has_import_clash(a):
-            ids.append("C18-import-name-clash")
-            fixed = rename_clashes(fixed)
-        if not ids:
+        if not has_import_clash(a):
             return None
-        if oracle_check(fixed) is None:
-            return ids[0]
+        if oracle_check(rename_clashes(a)) is None:
+            return "C18-import-name-clash"
     except Exception:  # noqa: BLE001
         return None
     return None
 
 
 def gen_oracle(rng, tier):
-    # lone surrogates cannot travel to the Lean driver, so they are exercised here only
+    # QName texts with lone surrogates (c18.qnamecp covers literal_value; here the whole render/exec path)
     C = model(MOD_A, ["C"], [fld("q", dv(None))])
-    for t in ("a\ud800b", "\udfff", "{urn:\udc00}x"):
-        yield {"world": [C], "val": inst(C, q={"t": "qname", "text": t}), "var": "obj"}
+    for t in ("a\ud800b", "\udfff", "{urn:\udc00}x", "\ud83d\ude00"):
+        yield {"world": [C], "val": inst(C, q=J(QName(t))), "var": "obj"}
     yield from gen_code(rng, "quick")
 
 
@@ -1195,20 +1210,6 @@ def _replay(obj):
     return text, outcome, detail
 
 
-def finding_set():
-    m = _scratch("c18find_a", "y")
-    text, outcome, detail = _replay(m.Outer(x={1, 2}))
-    text2, outcome2, _ = _replay(m.Outer(x=frozenset({1})))
-    return outcome == "unequal" and "x=[" in text and outcome2 == "unequal", f"{outcome}/{outcome2} {detail}"
-
-
-def finding_surrogate():
-    m = _scratch("c18find_a", "y")
-    text, outcome, detail = _replay(m.Outer(x=QName("a\ud800b")))
-    text2, outcome2, _ = _replay(m.Outer(x="a\ud800b"))  # a plain str with the same content is fine
-    return outcome == "exc:SyntaxError" and "UnicodeEncodeError" in detail and outcome2 == "equal", f"{outcome} {detail}"
-
-
 def finding_clash():
     ma, mb = _scratch("c18find_a", "y"), _scratch("c18find_b", "w")
     _, o1, _ = _replay(ma.Address(x=mb.Address(w=1)))
@@ -1217,8 +1218,6 @@ def finding_clash():
 
 
 FINDINGS = {
-    "C18-set-as-list": finding_set,
-    "C18-qname-lone-surrogate": finding_surrogate,
     "C18-import-name-clash": finding_clash,
 }
 
@@ -1242,21 +1241,22 @@ def __getattr__(name):
     raise AttributeError(name)
 
 LEVEL_TEXT = (
-    "Lean theorems for all worlds and all values at AST level, about the code as it is after the three fix commits: the "
-    "expression the serializer emits, evaluated in the namespace its own import lines create, yields a value Python-equal to the "
-    "original (code_rt_partial), every name it uses is bound to the class it means (imports_sufficient_partial), and the literal "
-    "json.dumps writes for a QName text is read back by the parser as that text for every string of Unicode scalar values "
-    "(qname_text_roundtrips). Two regions remain excluded, each a proved counterexample and a replayed finding: a non-empty "
-    "set/frozenset (rendered as a list) and one class name imported from two modules. The model is tied to /repo by comparing the "
-    "exact emitted text and the exec outcome on generated dataclasses and values, json.dumps and the QName literal on every code "
-    "point below U+0250 plus random strings, and the theorem's claim is re-checked on the real code wherever its hypotheses hold."
+    "Lean theorems for all worlds and all values at AST level, about the code as it is after the fix commits: the expression "
+    "the serializer emits, evaluated in the namespace its own import lines create, yields a value Python-equal to the original "
+    "(code_rt_partial: nested classes and enums, tuples, sets and frozensets, QNames, ...), every name it uses is bound to the class "
+    "it means (imports_sufficient_partial), and the literal written for a QName text is read back by the parser as that text "
+    "for every sequence of code points, lone surrogates included (qname_codepoints_roundtrip). One region remains excluded, a "
+    "proved counterexample and a replayed finding: one class name imported from two modules. The model is tied to /repo by "
+    "comparing the exact emitted text and the exec outcome on generated dataclasses and values, json.dumps and the QName literal "
+    "on every code point below U+0250, surrogates and random strings, and the theorem's claim is re-checked on the real code "
+    "wherever its hypotheses hold."
 )
 LEVEL_NOTE = (
     "Trusted: Lean kernel; CPython's parsing of the emitted text into the modelled AST (string-literal decoding of the QName "
     "argument is modelled and compared) and the repr/eval round trip of str, bytes, finite floats, Decimal and xsdata date/time "
-    "values (their repr is an input); Fraction() as the numeric value used for ==; the sampling correspondence check. Lone "
-    "surrogates (not representable in the model's strings; known finding), IntEnum/StrEnum, NaN-valued defaults, signalling NaN, "
-    "dict/set permutations, dataclass instances as dict keys, generators and classes defined inside functions are not modelled."
+    "values (their repr is an input); Fraction() as the numeric value used for ==; the sampling correspondence check. "
+    "IntEnum/StrEnum, NaN-valued defaults, signalling NaN, dict/set permutations and duplicate collapse, dataclass instances as "
+    "dict keys or set elements, generators and classes defined inside functions are not modelled."
 )
 TRUSTED = [
     "CPython parses the emitted text into the PyExpr AST the model evaluates (the text itself is compared character by character with the real output)",
@@ -1268,5 +1268,5 @@ ASSUMPTIONS = [
     "attributes of init=False fields hold the class default (a constructor call cannot set them); instances violating this are outside the property's domain",
     "'equal' is Python ==; for the failing-input search NaN is additionally taken equal to NaN position-wise",
     "classes are importable by module and qualified name (module-level or nested in classes, not in functions)",
-    "field defaults contain no NaN; enums are plain Enum; strings consist of Unicode scalar values; no signalling NaN",
+    "field defaults contain no NaN; enums are plain Enum; str values consist of Unicode scalar values (QName texts may hold lone surrogates); no signalling NaN",
 ]
